@@ -156,29 +156,30 @@ fn regex<'a, T: Queryable>(lhs: State<'a, T>, rhs: State<'a, T>, substr: bool) -
         _ => None,
     };
 
+    // a pattern written as a string literal in the query still carries its JSONPath escapes,
+    // a pattern taken from the document is already the regular expression itself
+    let rhs_is_literal = matches!(rhs.data, Data::Value(_));
     match (to_str(lhs), to_str(rhs)) {
-        (Some(lhs), Some(rhs)) => Regex::new(&prepare_regex(rhs, substr))
+        (Some(lhs), Some(rhs)) => Regex::new(&prepare_regex(rhs, substr, rhs_is_literal))
             .map(|re| to_state(regex(&lhs, re)))
             .unwrap_or(to_state(false)),
         _ => to_state(false),
     }
 }
 
-fn prepare_regex(pattern: String, substring: bool) -> String {
-    let pattern = if !substring {
+fn prepare_regex(pattern: String, substring: bool, literal: bool) -> String {
+    let pattern = if literal && pattern.contains("\\\\") {
+        pattern.replace("\\\\", "\\")
+    } else {
+        pattern
+    };
+    if !substring {
         // match() must cover the entire string: anchor the pattern as a whole, so that the
         // anchors do not bind to the first and last alternative only (`a|b`)
         format!("^(?:{})$", pattern)
     } else {
-        pattern.to_string()
-    };
-    let pattern = if pattern.contains("\\\\") {
-        pattern.replace("\\\\", "\\")
-    } else {
-        pattern.to_string()
-    };
-
-    pattern.trim_matches(|c| c == '\'' || c == '"').to_string()
+        pattern
+    }
 }
 
 fn value<T: Queryable>(state: State<T>) -> State<T> {
